@@ -100,7 +100,7 @@ Proof.
   assert (Z0 : rem g d - rem (post_update g []) d = 0).
   { unfold rem, post_update; cbn. lia. }
   destruct (negb (g_pool g =? 0)).
-  { destruct (nolock_coins (remain_epochs g) remain []) as [total|]; [|discriminate]. inversion H; subst; clear H.
+  { inversion H; subst; clear H. set (total := nolock_coins (remain_epochs g) remain []).
     unfold rem, post_update; cbn [g_coins g_dist]. rewrite amount_of_coins_add.
     destruct (is_empty total) eqn:E; [destruct total; [cbn; lia|discriminate]|].
     rewrite add_lock_rewards_sum. lia. }
